@@ -431,12 +431,39 @@ def rule_w1(repo, res, which=("quoted", "symbol", "flags")):
                 ok = "IS_QUOTED" not in kinds
                 res.oblige("W1-SYMBOL", f"{enc}.encode_assignment ({c}): a single-quoted symbol string cannot reach textwrap", ok=ok)
                 if not ok:
-                    res.add(Finding("W1-SYMBOL", f"{c}.encode_assignment", f"{enc}: symbol string reaches textwrap",
+                    # how long a symbol string can be (the language is_symbol() accepts, default options): the longer, the
+                    # less nesting it takes to split one -- part of the finding's identity, so that a laxer bound is a
+                    # different finding from the recorded one
+                    bound = _max_symbol_length(repo, enc)
+                    res.add(Finding("W1-SYMBOL", f"{c}.encode_assignment", f"{enc}: symbol string reaches textwrap (symbols up to {bound} characters)",
                                     f"for {enc}, a value that is itself a quoted symbol string goes through "
-                                    "format()/textwrap.wrap; is_symbol() admits spaces, so at sufficient nesting the "
+                                    "format()/textwrap.wrap; is_symbol() admits spaces and strings of up to "
+                                    f"{bound} characters, so at sufficient nesting the "
                                     "symbol is split over two lines, which ODL forbids for symbol strings",
                                     where=f"pvl/encoder.py:{call.lineno}"))
         res.floor(f"{enc}: format() calls that receive the encoded value", len(tainted_calls), 1)
+
+
+def _max_symbol_length(repo, enc):
+    """length of the longest string <enc>.is_symbol() accepts with the constructor defaults ('unbounded' beyond 400)"""
+    from . import lang, predeval as PE, strlang as SL
+    try:
+        p = lang.Pairing(repo, enc)
+        T = PE.run(enc, "is_symbol", p.ctx)["T"] & p.alpha
+    except PE.Unsupported as x:
+        raise AnalysisError(f"W1-SYMBOL: is_symbol of {enc} cannot be evaluated: {x}")
+    if T.empty():
+        return 0
+    lo, hi = 0, 400
+    if not (T & SL.length_gt(hi)).empty():
+        return "unbounded"
+    while lo < hi:                       # smallest k with no accepted string longer than k
+        mid = (lo + hi) // 2
+        if (T & SL.length_gt(mid)).empty():
+            hi = mid
+        else:
+            lo = mid + 1
+    return lo
 
 
 # ------------------------------------------------------------------ C12 surface rules
